@@ -75,7 +75,7 @@ class C20(Check):
     ASSUMPTIONS = ['pyarrow is trusted as parquet codec and as the independent reader']
     ANCHORS = ['rxsci/container/parquet.py', 'rxsci/data/batch.py']
     REQUIRED_TAGS = ['none', 'snappy', 'gzip', 'zstd', 'rows=0', 'rows<b', 'rows=b', 'rows=kb', 'rows%b!=0', 'path', 'fileobj',
-                     'nested', 'row_group', 'rows-with-mixed_order', 'rows-with-mixed_extra', 'rows-with-reversed']
+                     'nested', 'row_group', 'rows-with-mixed_order', 'rows-with-mixed_extra', 'rows-with-reversed', 'pushed-source', 'after-a-failed-dump']
     REQUIRED_OBSERVED = ['rows_compared_rxsci_reader', 'rows_compared_pyarrow_reader']
 
     def __init__(self):
@@ -128,7 +128,32 @@ class C20(Check):
             os.unlink(path)
         P = rs.container.parquet
         kw = dict(schema=schema, batch_size=b, row_group_size=case['row_group_size'], compression=case['compression'])
-        if case['target'] == 'path':
+        if case['target'] == 'path' and n % 2:
+            from ..progs import dump_pushed
+            out.tags.append('pushed-source')
+            w = dump_pushed(lambda o: o.pipe(P.dump_to_file(path, **kw)), src_rows, path, out, 'parquet.dump_to_file')
+            if out.failures:
+                return out
+        elif case['target'] == 'path' and n % 4 == 2:
+            # the same piped dump is subscribed again (retry) after a first attempt died of a row the schema rejects:
+            # the file of the second, clean attempt must hold the source rows and nothing of the first attempt
+            out.tags.append('after-a-failed-dump')
+            attempts = []
+            r2 = random.Random(case['rseed'] ^ 0x77)
+            bad_at = r2.randint(0, n)
+            bad = r2.choice([None, {'not_in_schema': 1}, 5])
+
+            def source(_scheduler=None):
+                attempts.append(1)
+                if len(attempts) == 1:
+                    return rx.from_(src_rows[:bad_at] + [bad] + src_rows[bad_at:])
+                return rx.from_(src_rows)
+            dump = rx.defer(source).pipe(P.dump_to_file(path, **kw))
+            first = subscribe(dump, Snap())
+            if first.err is None:
+                return out.fail('a-row-the-schema-rejects-was-written-silently', bad=repr(bad), at=bad_at)
+            w = subscribe(dump, Snap())
+        elif case['target'] == 'path':
             w = subscribe(rx.from_(src_rows).pipe(P.dump_to_file(path, **kw)), Snap())
         else:
             with open(path, 'wb') as f:
@@ -155,7 +180,7 @@ class C20(Check):
             return out
         for lb in case['load_batches']:
             if case['target'] == 'path':
-                g = subscribe2(P.load_from_file(path, batch_size=lb), out, 'load_from_file', same=lambda x, y: repr(x) == repr(y))
+                g = subscribe2(P.load_from_file(path, batch_size=lb), out, 'load_from_file', same=lambda x, y: repr(x) == repr(y), abuse=(lb == case['load_batches'][0]))
             else:
                 with open(path, 'rb') as f:
                     g = subscribe(P.load_from_file(f, batch_size=lb), Snap())
